@@ -249,14 +249,26 @@ func C17(e *core.Env) int {
 		// now the actual (possibly faulty) inputs
 		writeFiles(dir, sc.files())
 		before := core.SnapshotTree(dir)
-		cli, evs, err := core.RunStraced(bin, []string{"gen", "./..."}, core.RunOpts{Dir: dir, Env: e.GoEnv(), Timeout: 2 * time.Minute}, dir, nil)
+		// one pattern for everything, or one pattern per package (ascending / descending)
+		genArgs := []string{"gen", "./..."}
+		if sc.npkg > 1 && i%2 == 1 {
+			genArgs = []string{"gen"}
+			for p := 0; p < sc.npkg; p++ {
+				q := p
+				if i%4 == 3 {
+					q = sc.npkg - 1 - p
+				}
+				genArgs = append(genArgs, fmt.Sprintf("./pk%d", q))
+			}
+		}
+		cli, evs, err := core.RunStraced(bin, genArgs, core.RunOpts{Dir: dir, Env: e.GoEnv(), Timeout: 2 * time.Minute}, dir, nil)
 		if err != nil {
 			return
 		}
 		after := core.SnapshotTree(dir)
 		res.evs = len(evs)
 		detail := func() string {
-			return fmt.Sprintf("faulty: %s prior=%s\nexit=%d\nstderr: %s\nmutating syscalls: %v\ntree diff: %v", ru.label, sc.prior, cli.Exit, head(cli.Stderr, 1500), mutating(evs), before.Diff(after))
+			return fmt.Sprintf("args: %v\nfaulty: %s prior=%s\nexit=%d\nstderr: %s\nmutating syscalls: %v\ntree diff: %v", genArgs, ru.label, sc.prior, cli.Exit, head(cli.Stderr, 1500), mutating(evs), before.Diff(after))
 		}
 		if len(ru.subset) > 0 {
 			if cli.Exit != 1 {
